@@ -366,7 +366,83 @@ where
     rep.sample(json!({"cfg": cfg, "eps0": eps0, "transitions": traces.len(), "hostile_leaves": hostile_leaves}));
 }
 
+/// The smallest non-zero acceptance draw (f32: 2^-24, ln u = -16.6) must still reject a
+/// zero-density candidate. Seeds are searched for which the sampler's generator yields exactly that
+/// uniform for some row of a 32-chain batch whose large steps mostly leave the support; the search
+/// only steers (it assumes "n*d normals, then n uniforms"), the oracle reads the uniforms from the hook.
+fn hmc_rare_draw_case(ctx: &Ctx, rep: &mut Report, case: u64, g: &mut Sm64) {
+    use rand::{Rng, SeedableRng};
+    let mon = "hmc";
+    let (n_chains, d) = (32usize, 1usize);
+    let h = Hostile { kind: if case % 2 == 0 { 0 } else { 2 }, d, p: 1.5 };
+    let tiny = f32::EPSILON / 2.0; // 2^-24: the smallest non-zero value of the f32 uniform generator
+    let base = g.next_u64() >> 8;
+    let budget = if ctx.thorough { 1u64 << 23 } else { 1u64 << 22 };
+    let mut found = None;
+    for k in 0..budget {
+        let s = base.wrapping_add(k);
+        let mut r = SmallRng::seed_from_u64(s);
+        for _ in 0..n_chains * d {
+            let _: f32 = r.sample(StandardNormal);
+        }
+        if (0..n_chains).any(|_| r.random::<f32>() == tiny) {
+            found = Some(s);
+            break;
+        }
+    }
+    let Some(seed) = found else {
+        rep.inconclusive("no seed with an acceptance uniform of exactly 2^-24 found in the scan budget");
+        return;
+    };
+    let sig = format!("HMC target={}", h.name());
+    let step = 4.0f32;
+    let starts: Vec<Vec<f32>> = (0..n_chains).map(|i| vec![0.2 + 0.03 * i as f32]).collect();
+    let cfg = json!({"target": h.name(), "T": "f32", "backend": "NdArray<f32>", "dim": d, "n_chains": n_chains, "L": 1, "step_size": step, "seed": seed, "mode": "smallest non-zero acceptance draw"});
+    let mut sampler = HMC::<f32, B32, Hostile>::new(h.clone(), starts, step, 1).set_seed(seed);
+    let before = tv(&sampler.positions);
+    hook::enable();
+    let r = guard(|| sampler.step());
+    let ev = hook::take();
+    hook::disable();
+    rep.eval();
+    if let Err(m) = r {
+        rep.violation(&format!("{sig} panic"), mon, case, json!({"cfg": cfg, "panic": m}));
+        return;
+    }
+    let after = tv(&sampler.positions);
+    let (uniforms, logp_after) = match ev.first() {
+        Some(hook::Event::HmcStep { uniforms, logp_after, .. }) => (uniforms.clone(), logp_after.clone()),
+        _ => {
+            rep.inconclusive("hook event HmcStep not emitted");
+            return;
+        }
+    };
+    for row in 0..n_chains {
+        if uniforms[row] == 0.0 {
+            continue; // the statement's exception
+        }
+        if uniforms[row] == tiny as f64 {
+            rep.count(if logp_after[row].is_finite() { "rows_with_smallest_nonzero_u" } else { "rows_with_smallest_nonzero_u_and_zero_density_candidate" });
+        }
+        let x = &after[row..row + 1];
+        match bad_state(&h, x, f32::EPSILON as f64) {
+            None => rep.inconclusive("state within rounding distance of the support boundary"),
+            Some(true) => {
+                rep.violation(&format!("{sig} moved-to-bad-state"), mon, case,
+                    json!({"cfg": cfg, "row": row, "from": &before[row..row + 1], "to": fjv(x), "u": uniforms[row], "candidate_logp_seen_by_sampler": fj(logp_after[row])}));
+                return;
+            }
+            Some(false) => rep.held(),
+        }
+    }
+    rep.distinct(("hmc-raredraw", seed, h.kind));
+}
+
 pub fn run(ctx: &Ctx, rep: &mut Report) {
+    for c in ctx.case_ids("hmc-raredraw", 6, 64) {
+        let mut g = ctx.rng("hmc-raredraw", c);
+        hmc_rare_draw_case(ctx, rep, c, &mut g);
+    }
     for c in ctx.case_ids("mh", 200, 16_000) {
         let mut g = ctx.rng("mh", c);
         if c % 2 == 0 {
